@@ -21,7 +21,7 @@ SID = 'rp.session.sim'
 PID = A.PID
 
 
-def build(sim, root, layout=None, scheduler=None):
+def build(sim, root, layout=None, scheduler=None, real_pilot=False):
     '''returns dict(client=, pilot=, tmgr=, agent0=, pilot_doc=)'''
 
     net = N.net()
@@ -73,9 +73,26 @@ def build(sim, root, layout=None, scheduler=None):
                                  'access_schema': None},
                  'pilot_sandbox': 'file://localhost%s/' % psbox,
                  'js_hop': 'fork://localhost/'}
+    pilot = pmgr = None
+    if real_pilot:
+        # a real Pilot object from a real PilotManager (no launcher: the
+        # driver reports it ACTIVE): Pilot.stage_in/out, Pilot.as_dict
+        pmgr = W.make_pmgr(cside)
+        pd = rp.PilotDescription({'resource': 'local.localhost',
+                                  'runtime' : 60, 'exit_on_error': False,
+                                  'cores'   : lay.get('nodes', 2) *
+                                              lay.get('cpn', 4),
+                                  'sandbox' : '%s/remote' % root})
+        pd.uid = PID
+        pilot = pmgr.submit_pilots(pd)
+        pub = W.state_publisher(cside)
+        pub.put(rpc.STATE_PUBSUB, {'cmd': 'update', 'arg': [
+            {'uid': PID, 'type': 'pilot', 'state': rps.PMGR_ACTIVE}]})
+        W.wait_until(sim, lambda: pilot.state == rps.PMGR_ACTIVE, 10.0)
     return {'client': cside, 'pilot': side, 'tmgr': tmgr, 'agent0': agent0,
             'comps': comps, 'pilot_doc': pilot_doc, 'csbox': csbox,
-            'psbox': psbox, 'ssbox': ssbox, 'rsbox': rsbox}
+            'psbox': psbox, 'ssbox': ssbox, 'rsbox': rsbox,
+            'pilot_obj': pilot, 'pmgr': pmgr}
 
 
 def make_agent0(sim, side):
